@@ -4657,9 +4657,10 @@ def add_segments(part, force_new=False):
                     ):  # maximal expected number of volta brackets 10
                         if "volta_start" in list(boundaries[current_volta_end].keys()):
                             # add the beginning to the jump destinations
-                            numbers = boundaries[current_volta_end][
-                                "volta_start"
-                            ].number.split(",")
+                            # (the number of an ending is an int or a string like "1, 2")
+                            numbers = str(
+                                boundaries[current_volta_end]["volta_start"].number
+                            ).split(",")
                             numbers = [str(int(n)) for n in numbers]
                             current_volta_total_number += len(numbers)
                             for no in numbers:
